@@ -167,8 +167,9 @@ m("C16-split-position-on-live-graph", "C16", "import_export/geff/_export.py",
   "        new_graph = tracks.graph.copy()", "        new_graph = tracks.graph.copy(as_view=False) if tracks.ndim == 4 else tracks.graph")
 m("C16-revert-D6-scale-assignment", "C16", "import_export/geff/_export.py",
   "    axis_scales = tracks.scale if tracks.scale is not None else (1.0,) * tracks.ndim", "    if tracks.scale is None:\n        tracks.scale = (1.0,) * tracks.ndim\n    axis_scales = tracks.scale")
-m("C16-neighbors-query-drops-empty", "C16", "data_model/solution_tracks.py",
-  "        nodes = self.track_id_to_node.get(track_id)\n        if not nodes:\n            return False", "        nodes = self.track_id_to_node.setdefault(track_id, [])\n        if not nodes:\n            return False")
+m("C16-csv-names-setdefault-display-name", "C16", "import_export/csv/_export.py",
+  "                names = feature_dict.get(\"display_name\", feature_name)\n                header.extend([names])",
+  "                names = feature_dict.setdefault(\"display_name\", feature_name)\n                header.extend([names])")
 m("C16-save-attrs-converts-scale-in-place", "C16", "import_export/internal_format.py",
   "    out_path = directory / ATTRS_FILE\n    attrs_dict = {", "    out_path = directory / ATTRS_FILE\n    if tracks.scale is not None:\n        tracks.scale = [float(s) for s in tracks.scale][: tracks.ndim - 1] + [1.0]\n    attrs_dict = {")
 # ----------------------------------------------------------------------------- C20
